@@ -31,14 +31,35 @@ impl TransportError {
 pub struct TooManyChunks;
 pub struct ClosedStream { pub _private: () }
 pub struct ShouldTransmit(pub bool);
-#[verifier::external_body] pub struct Retransmits { x: u8 }
-/// opaque here (its arithmetic is verified in unit streams_state): freeing a receive half
-#[verifier::external_body] pub struct StreamsState { x: u8 }
+/// frames waiting to be (re)sent, as far as Chunks looks at them
+#[verifier::external_body] pub struct StreamIdSet { x: u8 }
+impl StreamIdSet { #[verifier::external_body] pub fn insert(&mut self, id: StreamId) -> bool { unimplemented!() } }
+pub struct Retransmits { pub max_data: bool, pub max_stream_data: StreamIdSet }
+#[verifier::external_body] pub struct StreamsInner { x: u8 }
+/// opaque here (its arithmetic is verified in unit streams_state): freeing a receive half, connection-level credit, stream storage
+pub struct StreamsState { pub stream_receive_window: u64, pub inner: StreamsInner }
 impl StreamsState {
     pub uninterp spec fn freed_count(&self) -> nat;
+    /// total connection-level credit returned through add_read_credits so far
+    pub uninterp spec fn credits(&self) -> nat;
+    /// the receive half stored for a stream
+    pub uninterp spec fn stored(&self, id: StreamId) -> Option<super::code::Recv>;
     #[verifier::external_body] pub fn stream_recv_freed(&mut self, id: StreamId, recv: super::code::StreamRecv)
-        ensures final(self).freed_count() == old(self).freed_count() + 1 { unimplemented!() }
+        ensures final(self).freed_count() == old(self).freed_count() + 1, final(self).credits() == old(self).credits(),
+            final(self).stream_receive_window == old(self).stream_receive_window { unimplemented!() }
+    #[verifier::external_body] pub fn queue_max_stream_id(&mut self, pending: &mut Retransmits) -> (r: bool)
+        ensures final(self).credits() == old(self).credits(), final(self).freed_count() == old(self).freed_count(),
+            final(self).stream_receive_window == old(self).stream_receive_window, forall|i: StreamId| final(self).stored(i) == old(self).stored(i) { unimplemented!() }
+    /// contract proved on the real function in unit streams_state (there in terms of local_max_data and the shrink debt)
+    #[verifier::external_body] pub fn add_read_credits(&mut self, credits: u64) -> (r: ShouldTransmit)
+        ensures final(self).credits() == old(self).credits() + credits, final(self).freed_count() == old(self).freed_count(),
+            final(self).stream_receive_window == old(self).stream_receive_window, forall|i: StreamId| final(self).stored(i) == old(self).stored(i) { unimplemented!() }
 }
+/// `self.streams.recv.insert(self.id, Some(StreamRecv::Open(rs)))`: the stream goes back into storage
+#[verifier::external_body] pub fn recv_put(st: &mut StreamsState, id: StreamId, rs: Box<super::code::Recv>)
+    ensures final(st).stored(id) == Some(*rs), forall|i: StreamId| i != id ==> final(st).stored(i) == old(st).stored(i),
+        final(st).credits() == old(st).credits(), final(st).freed_count() == old(st).freed_count(), final(st).stream_receive_window == old(st).stream_receive_window
+{ unimplemented!() }
 /// contract boundary: every clause below is proved on the real Assembler in unit `assembler` (there `wf_spec` is Assembler::wf,
 /// `ordered_spec` is `state is Ordered`, `empty_spec` is an empty heap); the one thing not carried over is insert's
 /// machine-arithmetic precondition (allocation estimates fit usize)
@@ -283,6 +304,21 @@ impl<'a> Chunks<'a> {
         // `ordered` is what Chunks::new (hash-map glue, not extracted) passed to Assembler::ensure_ordering before building the value
         match self.state { ChunksState::Readable(rs) => rs.wf() && (rs.state is ResetRecvd ==> self.read == 0) && self.ordered == rs.assembler.ordered_spec(), _ => true }
     }
+//@ extract quinn-proto/src/connection/streams/recv.rs :: impl Chunks<'a>::fn finalize_inner
+//@ props C06 C01
+//@ ret r
+//@ boolops
+//@ replace ws:self.streams .recv .insert(self.id, Some(StreamRecv::Open(rs))) => recv_put(self.streams, self.id, rs)
+//@ contract
+        requires old(self).inv(),
+            old(self).state matches ChunksState::Readable(rs) ==> rs.wf_w(old(self).streams.stream_receive_window),
+        ensures final(self).state is Finalized,
+            // connection-level credit is returned for exactly the bytes this Chunks handed out, once: a second call (or the Drop after
+            // finalize) is a no-op
+            final(self).streams.credits() == old(self).streams.credits() + (if old(self).state is Finalized { 0 } else { old(self).read as int }),
+            // an unfinished stream goes back into storage unchanged
+            old(self).state matches ChunksState::Readable(rs) ==> final(self).streams.stored(old(self).id) == Some(*rs),
+//@ end
 //@ extract quinn-proto/src/connection/streams/recv.rs :: impl Chunks<'a>::fn next
 //@ props C11 C01
 //@ ret res
